@@ -37,6 +37,8 @@
 
 namespace {
   double U[MAXDRAWS]; // the deviate sequence (symbolic), shared by both runs
+  bool U_set[MAXDRAWS];
+  bool PM_set[12];
   int draw_idx;
   // momenta of stub-created particles: symbolic but identical in both runs
   double PM[3 * 12];
@@ -46,7 +48,10 @@ namespace {
     double operator()() override
     {
       double u;
-      if (draw_idx < MAXDRAWS) { u = U[draw_idx]; VASSUME(u > 0. && u < 1.); }
+      if (draw_idx < MAXDRAWS) {
+        if (!U_set[draw_idx]) { U[draw_idx] = nondet_double(); U_set[draw_idx] = true; VASSUME(U[draw_idx] > 0. && U[draw_idx] < 1.); }
+        u = U[draw_idx];
+      }
       else u = 1e-300; // bound on rejection trajectories: after MAXDRAWS draws every rejection test accepts
       draw_idx++;
       return u;
@@ -61,7 +66,12 @@ namespace {
     p.set_code(code);
     p.set_time(last + tdlev);
     int k = stub_idx < 12 ? stub_idx : 11;
-    VASSUME(PM[3 * k] > -10. && PM[3 * k] < 10. && PM[3 * k + 1] > -10. && PM[3 * k + 1] < 10. && PM[3 * k + 2] > -10. && PM[3 * k + 2] < 10.);
+    if (!PM_set[k]) {
+      PM_set[k] = true;
+      for (int c = 0; c < 3; c++) { PM[3 * k + c] = nondet_double(); VASSUME(PM[3 * k + c] > -10. && PM[3 * k + c] < 10.); }
+      // a stub-created particle has a non-zero momentum
+      VASSUME(PM[3 * k] * PM[3 * k] + PM[3 * k + 1] * PM[3 * k + 1] + PM[3 * k + 2] * PM[3 * k + 2] > 1e-6);
+    }
     p.set_momentum(PM[3 * k], PM[3 * k + 1], PM[3 * k + 2]);
     stub_idx++;
     ev.add_particle(p);
@@ -82,7 +92,10 @@ namespace bxdecay0 {
   static void trans(event & ev, double tc, double & td)
   {
     td = tc;
-    if (nondet_int() & 1) add(ev, GAMMA, td);
+    static int choice[16]; static bool choice_set[16];
+    int k = stub_idx < 16 ? stub_idx : 15;
+    if (!choice_set[k]) { choice[k] = nondet_int() & 1; choice_set[k] = true; }
+    if (choice[k]) add(ev, GAMMA, td);
     else { add(ev, ELECTRON, td); add(ev, GAMMA, 0.); }
   }
   void decay0_nucltransK(i_random &, event & ev, const double, const double, const double, const double, const double tc, const double, double & td) { trans(ev, tc, td); }
@@ -117,8 +130,8 @@ static void run_unit(bxdecay0::event & ev, int level)
 
 extern "C" void harness()
 {
-  __CPROVER_havoc_object(U);
-  __CPROVER_havoc_object(PM);
+  for (int i = 0; i < MAXDRAWS; i++) U_set[i] = false;
+  for (int i = 0; i < 12; i++) PM_set[i] = false;
   int level = nondet_int();
 #if UNIT == 2
   VASSUME(level == 0 || level == 540 || level == 1130 || level == 1362 || level == 1741);
